@@ -57,8 +57,20 @@ def usable_points(cls, trace):
     after the parent has been released from its start-up wait."""
     if 'Thread' not in cls:
         return trace
+    start = None
     for j, e in enumerate(trace):
         if e.get('kind') == 'cret' and e.get('file') == 'threading.py' and e.get('func') == 'notify' and e.get('x') == 'release':
+            start = j
+            break
+    if start is None:
+        # the parent was not waiting yet when the event was set (no waiter to release): the flag is set before
+        # notify_all() is entered, so the constructor cannot block any more from there on
+        for j, e in enumerate(trace):
+            if e.get('file') == 'threading.py' and e.get('func') == 'notify_all':
+                start = j
+                break
+    for j, e in enumerate(trace):
+        if start is not None and j == start:
             out = []
             inside = False
             for x in trace[j:]:
@@ -419,3 +431,16 @@ def replay_case(spec, extra=None):
     print('stderr tail:\n' + res['stderr'][-800:])
     cleanup(wd)
     return 0
+
+
+def require_classes(chk, cases, classes, what, min_cases=3):
+    """A class whose landing points were never reached must not pass silently (inconclusive, not held)."""
+    import collections
+    n = collections.Counter()
+    for c in cases:
+        if any(e.get('ev') == 'at_point' for e in c['res']['events']):
+            n[c['cls']] += 1
+    chk.extra.setdefault('landing_cases_per_class', {})[what] = dict(n)
+    for cls in classes:
+        if n[cls] < min_cases:
+            chk.inconclusive('%s: only %d landing-point cases reached for %s' % (what, n[cls], cls), None)
